@@ -40,6 +40,7 @@ from ..findings import is_open
 
 ID = "C12"
 SHARDS = {"quick": 8, "thorough": 16}
+FORMS = ["c", "c", "lists", "tuples-fortran", "strided-ints", "keywords"]
 
 _NOEX = set(filter(None, os.environ.get("VERIF_NO_EXCLUDE", "").split(",")))
 # PolygonMask2D (raysect Discrete2DMesh) reports interior points lying to rounding on an internal triangulation edge as
@@ -145,58 +146,60 @@ def _mix(lo, hi, specials):
     return st.one_of(st.floats(lo, hi), st.sampled_from(specials))
 
 
+def _grid_n(draw):
+    # DESIGN: 20-60; the smallest sizes the finite differences allow are kept as a minority class
+    return draw(st.one_of(st.integers(20, 60), st.integers(20, 60), st.integers(20, 60), st.integers(5, 19)))
+
+
 @st.composite
-def eq_spec(draw):
+def eq_spec(draw, max_rays=256):
     k = draw(st.sampled_from(["example", "generomak", "synth", "synth", "synth", "synth", "synth", "synth"]))
     if k != "synth":
         return {"kind": k, "s": draw(st.sampled_from([1.0, 1.0, -1.0, -0.5, 2.0])), "c": draw(st.sampled_from([0.0, 0.0, 1.5, -2.0]))}
     r0 = draw(st.floats(0.8, 8.0))
+    fam = draw(st.sampled_from(["ellipse", "solovev"]))
     # "sym": up-down symmetric (Z0 = 0, z knots exactly antisymmetric, odd nz three times out of four): B_r is exactly 0.0 on z = 0
     sym = draw(st.sampled_from([False, False, True]))
+    nz = _grid_n(draw)
+    margin = [draw(st.floats(0.15, 1.0)) for _ in range(4)]
     if sym:
-        return _sym_spec(draw, r0)
-    return {"kind": "synth", "family": draw(st.sampled_from(["ellipse", "solovev"])),
-            "R0": r0, "a": r0 * draw(st.floats(0.12, 0.42)), "kappa": draw(st.floats(0.7, 2.2)), "z0": draw(st.floats(-0.5, 0.5)),
-            "nr": draw(st.integers(20, 60)), "nz": draw(st.integers(20, 60)),
-            "margin": [draw(st.floats(0.15, 1.0)) for _ in range(4)],
-            "axis_on_node": draw(st.sampled_from([False, False, False, True])),
-            "psi0": draw(st.sampled_from([0.0, 0.0, 1.0, -3.0])) + draw(st.floats(-2.0, 2.0)),
-            "D": draw(st.sampled_from([1.0, -1.0])) * 10 ** draw(st.floats(-2.0, 1.0)),
-            "eps": draw(st.sampled_from([0.0, 0.0, 1e-3, 0.01, 0.03])),
-            "nrays": draw(st.sampled_from([64, 64, 64, 96, 96, 128, 128, 200, 256])),
-            "phase": draw(st.floats(0.0, 1.0)), "cw": draw(st.booleans()), "limiter": draw(st.booleans()),
-            "f0": draw(st.floats(-8.0, 8.0)), "falpha": draw(st.floats(-0.3, 0.3)), "nf": draw(st.integers(5, 40))}
+        if draw(st.integers(0, 3)) != 0:
+            nz += 1 - nz % 2
+        margin[3] = margin[2]
+        # ellipse with R0 on an r knot: psi is built from exact knot offsets, B_z is exactly 0.0 on r = R0
+        on_node = draw(st.booleans()) if fam == "ellipse" else draw(st.sampled_from([False, False, False, True]))
+    else:
+        on_node = draw(st.sampled_from([False, False, False, True]))
+    d = {"kind": "synth", "family": fam,
+         "R0": r0, "a": r0 * draw(st.floats(0.12, 0.42)), "kappa": draw(st.floats(0.7, 2.2)),
+         "z0": 0.0 if sym else draw(st.floats(-0.5, 0.5)),
+         "nr": _grid_n(draw), "nz": nz, "margin": margin, "axis_on_node": on_node,
+         "psi0": draw(st.sampled_from([0.0, 0.0, 1.0, -3.0])) + draw(st.sampled_from([0.0, 0.0, 1.0])) * draw(st.floats(-2.0, 2.0)),
+         "D": draw(st.sampled_from([1.0, -1.0])) * draw(st.one_of(st.just(1.0), st.floats(-2.0, 1.0).map(lambda e: 10 ** e))),
+         "eps": draw(st.sampled_from([0.0, 0.0, 1e-3, 0.01, 0.03])),
+         "nrays": min(max_rays, draw(st.sampled_from([3, 4, 8, 16, 32, 64, 64, 64, 96, 96, 128, 128, 200, 256]))),
+         "phase": draw(st.floats(0.0, 1.0)), "cw": draw(st.booleans()), "limiter": draw(st.booleans()),
+         "f0": draw(st.floats(-8.0, 8.0)), "falpha": draw(st.floats(-0.3, 0.3)), "nf": draw(st.integers(2, 40)),
+         # container / layout of the constructor arguments (value preserving), number of x-points / strike points
+         "form": draw(st.sampled_from(FORMS)), "nxp": draw(st.integers(0, 2))}
+    if sym:
+        d["sym"] = True
+    return d
 
 
-def _sym_spec(draw, r0):
-    nz = draw(st.integers(20, 60))
-    if draw(st.integers(0, 3)) != 0:
-        nz += 1 - nz % 2
-    mz = draw(st.floats(0.15, 1.0))
-    fam = draw(st.sampled_from(["ellipse", "solovev"]))
-    return {"kind": "synth", "family": fam, "sym": True,
-            "R0": r0, "a": r0 * draw(st.floats(0.12, 0.42)), "kappa": draw(st.floats(0.7, 2.2)), "z0": 0.0,
-            "nr": draw(st.integers(20, 60)), "nz": nz,
-            "margin": [draw(st.floats(0.15, 1.0)), draw(st.floats(0.15, 1.0)), mz, mz],
-            # ellipse with R0 on an r knot: psi is built from exact knot offsets, B_z is exactly 0.0 on r = R0
-            "axis_on_node": draw(st.booleans()) if fam == "ellipse" else draw(st.sampled_from([False, False, False, True])),
-            "psi0": draw(st.sampled_from([0.0, 0.0, 1.0, -3.0])) + draw(st.floats(-2.0, 2.0)),
-            "D": draw(st.sampled_from([1.0, -1.0])) * 10 ** draw(st.floats(-2.0, 1.0)),
-            "eps": draw(st.sampled_from([0.0, 0.0, 1e-3, 0.01, 0.03])),
-            "nrays": draw(st.sampled_from([64, 64, 64, 96, 96, 128, 128, 200, 256])),
-            "phase": draw(st.floats(0.0, 1.0)), "cw": draw(st.booleans()), "limiter": draw(st.booleans()),
-            "f0": draw(st.floats(-8.0, 8.0)), "falpha": draw(st.floats(-0.3, 0.3)), "nf": draw(st.integers(5, 40))}
-
-
-_PHI = [0.0, 0.0, math.pi / 2, -math.pi / 2, math.pi, -math.pi, 3.0, -2.0, 1e-9]
+# toroidal angle of a point: radians, or a code >= 10 for exact axis crossings given as (x, y) with signed zeros
+PHI_CODES = {10: (-1.0, 0.0), 11: (-1.0, -0.0), 12: (0.0, 1.0), 13: (0.0, -1.0), 14: (-0.0, 1.0), 15: (1.0, -0.0)}
+_PHI = [0.0, 0.0, math.pi / 2, -math.pi / 2, math.pi, -math.pi, 3.0, -2.0, 1e-9, 10.0, 11.0, 10.0, 11.0, 12.0, 13.0, 14.0, 15.0]
 
 
 @st.composite
 def point_spec(draw):
-    t = draw(st.sampled_from(["u", "u", "ax", "lcfs", "lcfs", "node", "mid", "vline"]))
+    t = draw(st.sampled_from(["u", "u", "ax", "lcfs", "lcfs", "node", "mid", "vline", "int"]))
     phi = draw(st.one_of(st.sampled_from(_PHI), st.floats(-math.pi, math.pi)))
     if t == "u":
         return ["u", draw(_mix(0.0, 1.0, [0.0, 1.0, 0.5])), draw(_mix(0.0, 1.0, [0.0, 1.0, 0.5])), phi]
+    if t == "int":    # integer-valued coordinates inside the grid rectangle (if any): also handed over as Python ints
+        return ["int", draw(st.floats(0.0, 1.0)), draw(st.floats(0.0, 1.0)), phi]
     if t == "mid":    # on the horizontal line through the axis (z = +0.0 / -0.0 for a symmetric equilibrium), r drawn
         return ["mid", draw(st.floats(0.0, 1.0)), draw(st.sampled_from([0.0, -0.0])), phi]
     if t == "vline":  # on the vertical line through the axis, z drawn
@@ -210,8 +213,8 @@ def point_spec(draw):
 
 
 @st.composite
-def points_spec(draw):
-    return {"lat": {"n": draw(st.integers(40, 160)), "o": [draw(st.floats(0.0, 1.0)) for _ in range(3)]},
+def points_spec(draw, nmax=160):
+    return {"lat": {"n": draw(st.integers(min(40, nmax), nmax)), "o": [draw(st.floats(0.0, 1.0)) for _ in range(3)]},
             "pts": draw(st.lists(point_spec(), min_size=4, max_size=16))}
 
 
@@ -223,30 +226,53 @@ def _knots(draw):
     return [0.0] + [float(c / cum[-1] * xmax) for c in cum]
 
 
+ARRAY_FORMS = ["list", "tuple", "ndarray", "ndarray", "f-order", "strided", "f32", "int"]
+EXCLUDE_ALIAS = is_open("C12-constant-vector-aliased") and not ({"C12-constant-vector-aliased", "all"} & _NOEX)
+EXCLUDE_FLOAT = is_open("C12-scalar-profile-rejected") and not ({"C12-scalar-profile-rejected", "all"} & _NOEX)
+
+
 @st.composite
-def profile_spec(draw):
-    kind = draw(st.sampled_from(["poly", "poly", "gauss", "f1d", "array_lin", "array"]))
-    sc = draw(st.sampled_from([1.0, -1.0])) * 10 ** draw(st.floats(-2.0, 6.0))
+def profile_spec(draw, allow_float=False):
+    kinds = ["poly", "poly", "gauss", "f1d", "array_lin", "array", "array", "zero", "const"]
+    if allow_float and not EXCLUDE_FLOAT:     # only where a docstring shows it: the normal component of map_vector2d/3d
+        kinds += ["float", "float"]
+    kind = draw(st.sampled_from(kinds))
+    sc = draw(st.sampled_from([1.0, -1.0])) * draw(st.one_of(st.just(1.0), st.floats(-2.0, 6.0).map(lambda e: 10 ** e)))
     if kind in ("poly", "f1d"):
-        return {"kind": kind, "c": [sc * draw(st.floats(-1.0, 1.0)) for _ in range(3)]}
+        return {"kind": kind, "c": [sc * draw(_mix(-1.0, 1.0, [0.0, 1.0])) for _ in range(3)]}
     if kind == "gauss":
         return {"kind": "gauss", "a": sc, "c": draw(st.floats(0.0, 1.2)), "w": draw(st.floats(0.1, 1.0)), "b": sc * draw(st.floats(-1.0, 1.0))}
+    if kind == "zero":       # the documented "no velocity along the normal" case, as a function: exactly 0.0 everywhere
+        return {"kind": "zero", "ret_int": draw(st.booleans())}
+    if kind in ("const", "float"):
+        return {"kind": kind, "v": draw(st.sampled_from([0.0, 1.0, -1.0, 0.01, 2.0])) * draw(st.sampled_from([1.0, 1.0, sc])),
+                "ret_int": draw(st.booleans())}
     x = _knots(draw)
+    form = draw(st.sampled_from(ARRAY_FORMS))
     if kind == "array_lin":
-        return {"kind": "array_lin", "x": x, "c": [sc * draw(st.floats(-1.0, 1.0)), sc * draw(st.floats(-1.0, 1.0))],
-                "numpy": draw(st.booleans())}
-    return {"kind": "array", "x": x, "y": [sc * draw(st.floats(-1.0, 1.0)) for _ in x], "numpy": draw(st.booleans())}
+        return {"kind": "array_lin", "x": x, "c": [sc * draw(_mix(-1.0, 1.0, [0.0])), sc * draw(_mix(-1.0, 1.0, [0.0]))], "form": form}
+    y = [sc * draw(st.floats(-1.0, 1.0)) for _ in x]
+    # exact zeros on part of the knots, equal neighbouring values
+    i0 = draw(st.integers(0, len(x)))
+    i1 = draw(st.integers(i0, len(x)))
+    if draw(st.booleans()):
+        y[i0:i1] = [0.0] * (i1 - i0)
+    if draw(st.booleans()) and len(x) > 2:
+        j = draw(st.integers(1, len(x) - 1))
+        y[j] = y[j - 1]
+    return {"kind": "array", "x": x, "y": y, "form": form}
 
 
 def _outside(draw):
-    return draw(st.one_of(st.sampled_from([0.0, 0.0, -1.0, 1e6, -7.5]), st.floats(-1e3, 1e3)))
+    return draw(st.one_of(st.sampled_from([0.0, 0.0, -1.0, 1.0, 1e6, -7.5]), st.floats(-1e3, 1e3)))
 
 
 @st.composite
 def scalar_strategy(draw):
     d = {"eq": draw(eq_spec())}
     d.update(draw(points_spec()))
-    d["profiles"] = [{"p": draw(profile_spec()), "out": _outside(draw), "default_out": draw(st.integers(0, 5)) == 0}
+    d["profiles"] = [{"p": draw(profile_spec()), "out": _outside(draw), "default_out": draw(st.integers(0, 5)) == 0,
+                      "out_form": draw(st.sampled_from(["float", "float", "int", "kw"]))}
                      for _ in range(draw(st.integers(1, 3)))]
     return d
 
@@ -256,6 +282,7 @@ def basis_strategy(draw):
     d = {"eq": draw(eq_spec())}
     d.update(draw(points_spec()))
     d["nodes"] = [[draw(st.floats(0.0, 1.0)), draw(st.floats(0.0, 1.0))] for _ in range(draw(st.integers(4, 24)))]
+    d["mutate"] = False if EXCLUDE_ALIAS else draw(st.booleans())   # modify a returned toroidal vector in place, ask again
     return d
 
 
@@ -263,9 +290,28 @@ def basis_strategy(draw):
 def vector_strategy(draw):
     d = {"eq": draw(eq_spec())}
     d.update(draw(points_spec()))
-    d["vt"], d["vp"], d["vn"] = draw(profile_spec()), draw(profile_spec()), draw(profile_spec())
+    d["vt"], d["vp"], d["vn"] = draw(profile_spec()), draw(profile_spec()), draw(profile_spec(allow_float=True))
     d["out"] = draw(st.one_of(st.none(), st.none(), st.lists(st.sampled_from([0.0, 1.0, -2.5, 1e4]), min_size=3, max_size=3),
                               st.lists(st.floats(-1e3, 1e3), min_size=3, max_size=3)))
+    d["out_kw"] = draw(st.booleans())
+    d["mutate"] = False if EXCLUDE_ALIAS else draw(st.booleans())   # modify a returned outside vector in place, ask again
+    return d
+
+
+_MAGIC = [0.0, -0.0, 1.0, -1.0, 0.5, 2.0, 1e-100, -1e-100, 1e100, 3.0, -4.0]
+
+
+@st.composite
+def api_strategy(draw):
+    d = {"eq": draw(eq_spec(max_rays=96))}
+    d.update(draw(points_spec(nmax=40)))
+    d["twin"] = draw(st.sampled_from(["f32", "f32-all", "int-profiles", "nested-tuples"]))
+    # helper classes built directly on Python callables: field vectors, psi_n values, derivative values
+    d["fields"] = [[draw(st.sampled_from(_MAGIC)) for _ in range(3)] for _ in range(draw(st.integers(2, 6)))]
+    d["psin"] = [draw(st.one_of(st.sampled_from([0.0, 1.0, 1.0000000000000002, 0.9999999999999999, 0.5, 2.0]), st.floats(0.0, 1.5)))
+                 for _ in range(draw(st.integers(2, 5)))]
+    d["comp"] = [draw(profile_spec()) for _ in range(3)]
+    d["mf"] = [draw(st.floats(-5.0, 5.0)) for _ in range(6)]
     return d
 
 
@@ -365,9 +411,64 @@ def _synth_args(spec):
     lim = None
     if spec["limiter"]:
         lim = np.array([[r[0], r[-1], r[-1], r[0]], [z[0], z[0], z[-1], z[-1]]])
-    args = (r, z, psi, psi0 + eps * dd, psi0 + dd, Point2D(r0, z0), [], [], fprof, qprof, r0, spec["f0"] / r0,
+    nxp = spec.get("nxp", 0)
+    xps = [Point2D(r0 - 0.3 * a * i, verts[:, 1].min() - 0.01 * a * (i + 1)) for i in range(nxp)]
+    sps = [Point2D(r0 + 0.2 * a * i, z[0]) for i in range(nxp)]
+    args = (r, z, psi, psi0 + eps * dd, psi0 + dd, Point2D(r0, z0), xps, sps, fprof, qprof, r0, spec["f0"] / r0,
             np.ascontiguousarray(verts.T), lim, 0.0)
     return args, dict(u=u, ur=ur, uz=uz, c=c, z0=z0, eps=eps, D=dd, psi0=psi0)
+
+
+ARGN = ["r", "z", "psi_grid", "psi_axis", "psi_lcfs", "magnetic_axis", "x_points", "strike_points", "f_profile", "q_profile",
+        "b_vacuum_radius", "b_vacuum_magnitude", "lcfs_polygon", "limiter_polygon", "time"]
+
+
+def _strided(a):
+    """Same values as a non-contiguous view (strides 2 / (2, 3) elements) of a NaN-filled array."""
+    a = np.asarray(a, dtype=float)
+    if a.ndim == 1:
+        big = np.full(2 * len(a) + 1, np.nan)
+        big[1::2] = a
+        return big[1::2]
+    big = np.full((2 * a.shape[0], 3 * a.shape[1]), np.nan)
+    big[::2, 1::3] = a
+    return big[::2, 1::3]
+
+
+def _maybe_int(v):
+    return int(v) if float(v).is_integer() else v
+
+
+def apply_form(args, form):
+    """Canonical constructor arguments -> (positional, keyword) arguments in another container / layout with the SAME values,
+    plus the list of (ndarray handed over, canonical copy) pairs owned by the caller."""
+    r, z, psi, pa, pl, ax, xp, sp, f, q, bvr, bvm, poly, lim, t = args
+    arrs = [np.array(x) if x is not None else None for x in (r, z, psi, f, q, poly, lim)]
+    if form == "lists":
+        arrs = [x.tolist() if x is not None else None for x in arrs]
+    elif form == "tuples-fortran":
+        r_, z_, psi_, f_, q_, poly_, lim_ = arrs
+        arrs = [tuple(r_.tolist()), tuple(z_.tolist()), np.asfortranarray(psi_), np.asfortranarray(f_), tuple(map(tuple, q_.tolist())),
+                np.asfortranarray(poly_), np.asfortranarray(lim_) if lim_ is not None else None]
+        xp, sp = tuple(xp), tuple(sp)
+    elif form == "strided-ints":
+        arrs = [_strided(x) if x is not None else None for x in arrs]
+        pa, pl, bvr, bvm, t = _maybe_int(pa), _maybe_int(pl), _maybe_int(bvr), _maybe_int(bvm), _maybe_int(t)
+    r_, z_, psi_, f_, q_, poly_, lim_ = arrs
+    full = [r_, z_, psi_, pa, pl, ax, xp, sp, f_, q_, bvr, bvm, poly_, lim_, t]
+    owned = [(x, np.array(c)) for x, c in zip(arrs, (r, z, psi, f, q, poly, lim)) if isinstance(x, np.ndarray)]
+    if form == "keywords":
+        return (), dict(zip(ARGN, full)), owned
+    return tuple(full), {}, owned
+
+
+def check_owned(ctx, owned, what):
+    """Caller-owned arrays: bit-identical and still writeable after the call; then overwritten, so that any later use of
+    them by the object under test shows up in the oracles."""
+    for x, c in owned:
+        ctx.check(x.flags.writeable and np.array_equal(x, c), "caller-data-unchanged",
+                  lambda: "%s: an array handed over by the caller was modified (or made read-only) by the call" % what)
+        x[...] = -3.0 * x - 7.0
 
 
 def get_bundle(spec, ctx):
@@ -380,8 +481,11 @@ def get_bundle(spec, ctx):
     b.synth = None
     if spec["kind"] == "synth":
         args, b.synth = _synth_args(spec)
+        b.args = args
+        pos, kw, owned = apply_form(args, spec.get("form", "c"))
         with ctx.cut("construct"):
-            b.eq = EFITEquilibrium(*args)
+            b.eq = EFITEquilibrium(*pos, **kw)
+        check_owned(ctx, owned, "EFITEquilibrium(form=%s)" % spec.get("form", "c"))
         b.name = "synth:" + spec["family"]
     else:
         s, c = spec["s"], spec["c"]
@@ -397,10 +501,16 @@ def get_bundle(spec, ctx):
                                        d["bvr"], d["bvm"], d["lcfs"], d["lim"], d["time"])
         b.name = spec["kind"]
     eq = b.eq
-    b.r, b.z, b.psi = np.array(eq.r_data, dtype=float), np.array(eq.z_data, dtype=float), np.array(eq.psi_data, dtype=float)
-    b.poly = np.array(eq.lcfs_polygon, dtype=float)            # N x 2, as stored by the constructor
-    b.axis = (eq.magnetic_axis.x, eq.magnetic_axis.y)
-    b.dpsi = eq.psi_lcfs - eq.psi_axis
+    if b.synth is not None:      # my own data, not what the object reports
+        b.r, b.z, b.psi, b.poly = np.array(args[0]), np.array(args[1]), np.array(args[2]), np.ascontiguousarray(args[12].T)
+        b.axis, b.dpsi = (args[5].x, args[5].y), args[4] - args[3]
+    else:
+        d = _load_json(spec["kind"])
+        b.json = d
+        b.r, b.z = np.array(d["r"], dtype=float), np.array(d["z"], dtype=float)
+        b.psi = spec["s"] * np.array(d["psi"], dtype=float) + spec["c"]
+        b.poly = np.ascontiguousarray(np.array(d["lcfs"], dtype=float).T)
+        b.axis, b.dpsi = (d["axis"][0], d["axis"][1]), spec["s"] * (d["psi_lcfs"] - d["psi_axis"])
     b.size = float(max(np.ptp(b.poly[:, 0]), np.ptp(b.poly[:, 1])))
     b.minor = 0.5 * float(np.ptp(b.poly[:, 0]))
     # largest poloidal field of the grid (central differences): scale for the node check and the degeneracy threshold
@@ -462,7 +572,7 @@ def make_points(case, b):
     n, o = case["lat"]["n"], case["lat"]["o"]
     for k in range(n):
         u, v, w = (o[0] + k * _A1) % 1.0, (o[1] + k * _A2) % 1.0, (o[2] + k * _A3) % 1.0
-        out.append((rmin + u * sr, zmin + v * sz, 0.0 if k % 5 == 0 else (2 * w - 1) * math.pi))
+        out.append((rmin + u * sr, zmin + v * sz, 0.0 if k % 5 == 0 else float(10 + (k // 7) % 6) if k % 7 == 3 else (2 * w - 1) * math.pi))
     nv = len(b.poly)
     out.append((b.axis[0], b.axis[1], 1.0))          # the magnetic axis itself, in every case
     fixed = []
@@ -483,6 +593,9 @@ def make_points(case, b):
             out.append((rmin + a1 * sr, b.axis[1] if b.axis[1] != 0.0 else a2, p[3]))
         elif t == "vline":
             out.append((b.axis[0], zmin + a1 * sz, p[3]))
+        elif t == "int":     # nearest integers inside the rectangle, else the plain uniform point
+            ri, zi = float(round(rmin + a1 * sr)), float(round(zmin + a2 * sz))
+            out.append((ri if rmin <= ri <= rmax else rmin + a1 * sr, zi if zmin <= zi <= zmax else zmin + a2 * sz, p[3]))
         elif t == "ax":
             out.append((b.axis[0] + a1 * b.minor * math.cos(a2), b.axis[1] + a1 * b.minor * math.sin(a2), p[3]))
         elif t == "lcfs":
@@ -508,6 +621,22 @@ def make_points(case, b):
     return r, z, arr[:, 2], ok3
 
 
+def xy_of(r, phi):
+    """(x, y) of a point at cylindrical radius r: phi in radians, or a PHI_CODES key (exact axis crossings, signed zeros)."""
+    if phi >= 10.0:
+        cx, cy = PHI_CODES[int(phi)]
+        return cx * r, cy * r
+    return r * math.cos(phi), r * math.sin(phi)
+
+
+def coord_forms(ri, zi):
+    """Other accepted forms of the same coordinates: numpy scalars, Python ints when integer valued."""
+    forms = [(np.float64(ri), np.float64(zi))]
+    if float(ri).is_integer() and float(zi).is_integer():
+        forms.append((int(ri), int(zi)))
+    return forms
+
+
 def classify(b, r, z, psin):
     """My own inside decision.  -> inside (bool), amb (bool: accept either), excluded_known (bool)."""
     inpoly, dist = poly_test(r, z, b.poly)
@@ -519,10 +648,34 @@ def classify(b, r, z, psin):
 
 
 # ================================================================================================ profiles
+def _array_form(x, y, form):
+    """2xN profile data in one of the accepted containers / dtypes.  -> (object, canonical float64 2xN array, owned ndarray or None)"""
+    x, y = list(x), list(y)
+    if form == "int":            # integer-valued samples as Python ints (knots stay floats); a true int ndarray for knots {0, 1}
+        y = [int(round(max(-1e15, min(1e15, v)))) for v in y]
+        obj = np.array([[0, 1], y], dtype=int) if x == [0.0, 1.0] else [x, y]
+    elif form == "f32":
+        obj = np.array([x, y], dtype=np.float32)
+    elif form == "tuple":
+        obj = (tuple(x), tuple(y))
+    elif form == "list":
+        obj = [x, y]
+    elif form == "f-order":
+        obj = np.asfortranarray(np.array([x, y]))
+    elif form == "strided":
+        obj = _strided(np.array([x, y]))
+    else:
+        obj = np.array([x, y])
+    can = np.array(obj, dtype=np.float64)        # the canonical float64 form of the same values
+    return obj, can, (obj if isinstance(obj, np.ndarray) else None)
+
+
 def build_profile(spec):
-    """-> (object handed to the code, reference callable, max|p'| on [0,1.01] or None, scale, class label)"""
+    """-> (object handed to the code, reference callable, max|p'| on [0,1.01] or None, scale, class label,
+           (caller-owned ndarray, canonical copy) or None)"""
     k = spec["kind"]
     xs = np.linspace(0.0, 1.0, 101)
+    owned = None
     if k in ("poly", "f1d"):
         c0, c1, c2 = spec["c"]
         ref = lambda x: c0 + x * (c1 + x * c2)   # noqa: E731
@@ -533,20 +686,36 @@ def build_profile(spec):
         a, c, w, bb = spec["a"], spec["c"], spec["w"], spec["b"]
         ref = lambda x: bb + a * math.exp(-0.5 * ((x - c) / w) ** 2)   # noqa: E731
         obj, lip, lab = ref, 0.6066 * abs(a) / w, "callable"
-    elif k == "array_lin":
-        c0, c1 = spec["c"]
-        x = spec["x"]
-        y = [c0 + c1 * xi for xi in x]
-        ref = lambda t: c0 + c1 * t   # noqa: E731
-        obj = np.array([x, y]) if spec["numpy"] else [list(x), y]
-        lip, lab = None, "array-linear"
+    elif k in ("zero", "const", "float"):
+        v = 0.0 if k == "zero" else float(spec["v"])
+        as_int = spec.get("ret_int", False) and float(v).is_integer()
+        ref = lambda x: v   # noqa: E731
+        if k == "float":     # the docstrings of map_vector2d/3d pass `v_normal = 0.0`
+            obj, lab = (int(v) if as_int else v), "float"
+        else:
+            ret = int(v) if as_int else v
+            obj, lab = (lambda x: ret), ("zero" if v == 0.0 else "const")
+        lip = 0.0
     else:
-        x, y = spec["x"], spec["y"]
-        ref = Interpolator1DArray(np.array(x, dtype=float), np.array(y, dtype=float), "cubic", "none", 0)
-        obj = np.array([x, y]) if spec["numpy"] else [list(x), list(y)]
-        lip, lab = None, "array"
+        form = spec.get("form", "ndarray" if spec.get("numpy") else "list")
+        x = spec["x"]
+        y = [spec["c"][0] + spec["c"][1] * xi for xi in x] if k == "array_lin" else spec["y"]
+        obj, can, arr = _array_form(x, y, form)
+        if arr is not None:
+            owned = (arr, np.array(arr))
+        if k == "array_lin" and form not in ("f32", "int"):
+            c0, c1 = spec["c"]
+            ref = lambda t: c0 + c1 * t   # noqa: E731
+            lab = "array-linear"
+        else:                # the profile IS raysect's interpolator on the canonical float64 values
+            ref = Interpolator1DArray(np.ascontiguousarray(can[0]), np.ascontiguousarray(can[1]), "cubic", "none", 0)
+            lab = "array"
+        lip = None
+        lab2 = "array-form:" + form
+        scale = max(max(abs(ref(float(t))) for t in xs), 1e-300)
+        return obj, ref, lip, scale, [lab, lab2] + (["array-zeros"] if k == "array" and 0.0 in list(can[1]) else []), owned
     scale = max(max(abs(ref(float(t))) for t in xs), 1e-300)
-    return obj, ref, lip, scale, lab
+    return obj, ref, lip, scale, [lab], owned
 
 
 # ================================================================================================ analytic bounds
@@ -670,8 +839,14 @@ def run_scalar(case, ctx):
     either = amb | known
     n = len(r)
     # 3-D points
-    x3, y3 = r * np.cos(phi), r * np.sin(phi)
+    xy = [xy_of(float(a), float(p)) for a, p in zip(r, phi)]
+    x3, y3 = np.array([q[0] for q in xy]), np.array([q[1] for q in xy])
     r3 = np.sqrt(x3 * x3 + y3 * y3)
+    if ((phi == 10.0) | (phi == 11.0))[ok3].any():
+        ctx.label("phi:x<0,y=+-0")
+    if (inside & (psin == 0.0)).any():
+        ctx.label("psi_n==0-inside")
+    ctx.label("entry:psi_normalised", "entry:map2d", "entry:map3d")
     near1 = np.abs(psin - 1.0) <= 1e-12
     rd, zd = _dense(case, b)               # dense sample: psi_n >= 0 (and the analytic flux) only
     psin_d = _psin(ctx, b, rd, zd)
@@ -687,21 +862,44 @@ def run_scalar(case, ctx):
         ctx.label("analytic")
 
     visible = False
+    first = None
     for pc in case["profiles"]:
-        obj, ref, lip, scale, lab = build_profile(pc["p"])
-        ctx.label("profile:" + lab)
+        obj, ref, lip, scale, labs, owned = build_profile(pc["p"])
+        ctx.label(*["profile:" + l for l in labs])
         out = 0.0 if pc["default_out"] else float(pc["out"])
+        oform = pc.get("out_form", "float")
+        if oform == "int":
+            out = float(round(out))
         scale = max(scale, abs(out))
         with ctx.cut("map2d/map3d construction"):
             if pc["default_out"]:
                 f2, f3 = eq.map2d(obj), eq.map3d(obj)
+                ctx.label("outside:default")
+            elif oform == "kw":
+                f2, f3 = eq.map2d(profile=obj, value_outside_lcfs=out), eq.map3d(profile=obj, value_outside_lcfs=out)
+                ctx.label("outside:keyword")
+            elif oform == "int":
+                f2, f3 = eq.map2d(obj, int(out)), eq.map3d(obj, int(out))
+                ctx.label("outside:int")
             else:
                 f2, f3 = eq.map2d(obj, out), eq.map3d(obj, out)
+        if owned is not None:     # the caller's array is untouched, and scribbling on it now must not change the mapping
+            check_owned(ctx, [owned], "map2d/map3d(%s)" % json.dumps(pc["p"]))
         tol = 1e-12 * scale
+        got_all = []
         for i in range(n):
             ri, zi = float(r[i]), float(z[i])
             with ctx.cut("map2d evaluation"):
                 got = f2(ri, zi)
+            got_all.append(got)
+            if i % 9 == 0 or (ri.is_integer() and zi.is_integer()):
+                for fr, fz in coord_forms(ri, zi):
+                    with ctx.cut("map2d evaluation"):
+                        g = f2(fr, fz)
+                    if type(fr) is int:
+                        ctx.label("coords:int")
+                    ctx.check(g == got, "coordinate-forms", lambda: "map2d(..)(%r, %r) = %r but %r for (%r, %r) of type %s"
+                              % (ri, zi, got, g, fr, fz, type(fr).__name__))
             want = ref(float(psin[i])) if (inside[i] or either[i]) and psin[i] <= 1.0 else None
             if either[i]:
                 okv = got == out or (want is not None and abs(got - want) <= tol)
@@ -734,6 +932,20 @@ def run_scalar(case, ctx):
                 ok = abs(g3 - g2) <= 1e-10 * scale or ((either[i] or near1[i]) and (g3 == out or g2 == out))
                 ctx.check(ok, "map3d", lambda: "map3d(%r, %r, %r) = %r but map2d(sqrt(x^2+y^2)=%r, z) = %r (phi=%r, %s)"
                           % (xi, yi, zi, g3, rr, g2, float(phi[i]), json.dumps(b.spec)))
+        if first is None:
+            first = (pc, f2, got_all)
+    # re-use: the equilibrium has served 1-3 mappings and ~10^3 evaluations; everything is reproduced bit for bit
+    psin2 = _psin(ctx, b, r, z)
+    ctx.check(np.array_equal(psin, psin2), "reuse", lambda: "psi_normalised differs on a second pass over the same points (%s)" % json.dumps(b.spec))
+    pc, f2, got_all = first
+    with ctx.cut("map2d re-use"):
+        again = [f2(float(a), float(c)) for a, c in zip(r, z)]
+        obj2 = build_profile(pc["p"])[0]
+        f2b = eq.map2d(obj2) if pc["default_out"] else eq.map2d(obj2, float(round(pc["out"])) if pc.get("out_form") == "int" else float(pc["out"]))
+        fresh = [f2b(float(a), float(c)) for a, c in zip(r, z)]
+    ctx.check(again == got_all, "reuse", lambda: "the first mapped function gives different values when evaluated again at the end (%s)" % json.dumps(pc["p"]))
+    ctx.check(fresh == got_all, "reuse", lambda: "map2d of the same profile built a second time gives different values (%s)" % json.dumps(pc["p"]))
+    ctx.label("reuse")
     decided = ~either
     both = bool((inside & decided).any() and (~inside & decided).any())
     phis = bool((ok3 & (phi != 0.0)).any())
@@ -801,7 +1013,9 @@ def run_basis(case, ctx):
         ctx.check(abs(float(bv @ nn)) <= ALG * float(np.linalg.norm(bv)), "B.n=0", lambda: "B.n = %r at %s" % (float(bv @ nn), where))
         if ok3[i]:
             ph = float(phi[i])
-            xi, yi = ri * math.cos(ph), ri * math.sin(ph)
+            xi, yi = xy_of(ri, ph)
+            if ph in (10.0, 11.0):
+                ctx.label("phi:x<0,y=+-0")
             rr = math.sqrt(xi * xi + yi * yi)
             a = math.atan2(yi, xi)
             ca, sa = math.cos(a), math.sin(a)
@@ -827,7 +1041,20 @@ def run_basis(case, ctx):
         ctx.check(abs(bv[0] - want_r) <= 1e-9 * b.bscale and abs(bv[2] - want_z) <= 1e-9 * b.bscale, "field-at-nodes",
                   lambda: "B_pol at node (%d, %d) = (%r, %r) is (%r, %r); -dpsi/dZ/R, dpsi/dR/R by central differences = (%r, %r) [%s]"
                   % (i, j, ri, zj, bv[0], bv[2], want_r, want_z, json.dumps(b.spec)))
-    ctx.label("nodes")
+    ctx.label("nodes", "entry:b_field", "entry:toroidal_vector", "entry:poloidal_vector", "entry:surface_normal")
+    if case.get("mutate"):      # a caller that modifies a basis vector it was given must not change the equilibrium's basis
+        ri, zi = float(r[0]), float(z[0])
+        with ctx.cut("basis evaluation"):
+            for f in (eq.toroidal_vector, eq.b_field):
+                g = f(ri, zi)
+                before = _v(g)
+                g.x, g.y = g.x + 1.0, g.y * 0.5
+                again = _v(f(ri, zi))
+                if not np.array_equal(again, before):
+                    _CACHE.pop(canon(b.spec), None)       # the cached equilibrium is damaged now
+                ctx.check(np.array_equal(again, before), "returned-vector-aliased", lambda: "a basis/field function returned %r at (%r, %r); after the caller "
+                          "modified that returned Vector3D in place the same call returns %r" % (before.tolist(), ri, zi, again.tolist()))
+        ctx.label("mutate-returned")
     ctx.nt(good >= 10 and both)
 
 
@@ -845,21 +1072,38 @@ def run_vector(case, ctx):
     near1 = np.abs(psin - 1.0) <= 1e-12
     thr = DEGENERATE * b.bscale
     profs = [build_profile(case[k]) for k in ("vt", "vp", "vn")]
+    for nm, pf in zip(("vt", "vp", "vn"), profs):
+        ctx.label(*["profile:" + l for l in pf[4]])
+        if pf[4][0] in ("zero", "float") or (pf[4][0] == "const" and case[nm]["v"] == 0.0):
+            ctx.label("zero-component:" + nm)
+    ctx.label("entry:map_vector2d", "entry:map_vector3d")
     vscale = max(p[3] for p in profs)
+    objs = [p[0] for p in profs]
+    outobj = None
     if case["out"] is None:
         ctx.label("outside:none")
         outv = np.zeros(3)
         with ctx.cut("map_vector construction"):
-            f2 = eq.map_vector2d(profs[0][0], profs[1][0], profs[2][0])
-            f3 = eq.map_vector3d(profs[0][0], profs[1][0], profs[2][0])
+            if case.get("out_kw"):
+                f2, f3 = eq.map_vector2d(toroidal=objs[0], poloidal=objs[1], normal=objs[2]), eq.map_vector3d(toroidal=objs[0], poloidal=objs[1], normal=objs[2])
+            else:
+                f2, f3 = eq.map_vector2d(*objs), eq.map_vector3d(*objs)
     else:
         ctx.label("outside:vector")
         outv = np.array(case["out"], dtype=float)
+        outobj = Vector3D(*case["out"])
         with ctx.cut("map_vector construction"):
-            f2 = eq.map_vector2d(profs[0][0], profs[1][0], profs[2][0], Vector3D(*case["out"]))
-            f3 = eq.map_vector3d(profs[0][0], profs[1][0], profs[2][0], Vector3D(*case["out"]))
+            if case.get("out_kw"):
+                f2 = eq.map_vector2d(objs[0], objs[1], objs[2], value_outside_lcfs=outobj)
+                f3 = eq.map_vector3d(objs[0], objs[1], objs[2], value_outside_lcfs=outobj)
+            else:
+                f2, f3 = eq.map_vector2d(objs[0], objs[1], objs[2], outobj), eq.map_vector3d(objs[0], objs[1], objs[2], outobj)
+        ctx.check((outobj.x, outobj.y, outobj.z) == tuple(outv), "caller-data-unchanged", "the caller's outside Vector3D was modified by map_vector2d/3d")
+        outobj.x, outobj.y, outobj.z = outobj.x + 1.0, -2.0 * outobj.y - 1.0, 7.0      # the caller re-uses its vector: no effect on the mapping
+    check_owned(ctx, [pf[5] for pf in profs if pf[5] is not None], "map_vector2d/3d")
     tol = ALG * vscale
     visible = False
+    kept = []
     for i in range(len(r)):
         ri, zi = float(r[i]), float(z[i])
         with ctx.cut("map_vector2d evaluation"):
@@ -867,10 +1111,13 @@ def run_vector(case, ctx):
         deg = math.hypot(bv[0], bv[2]) < thr
         try:     # degenerate points: ZeroDivisionError from an underflowing |B_pol|^2 is tolerated (see run_basis)
             with ctx.cut("map_vector2d evaluation", allowed=(ZeroDivisionError,) if deg else ()):
-                got = _v(f2(ri, zi))
+                gobj = f2(ri, zi)
+                got = _v(gobj)
         except ZeroDivisionError:
             ctx.label("degenerate", "degenerate:zero-division")
             continue
+        if len(kept) < 12 or i % 11 == 0:
+            kept.append((ri, zi, gobj, got.copy()))
         is_out = bool(np.all(got == outv))
         msg = None
         if (inside[i] or either[i]) and psin[i] <= 1.0:
@@ -897,7 +1144,9 @@ def run_vector(case, ctx):
                   % (ri, zi, bv.tolist(), msg, json.dumps(case["vt"]), json.dumps(case["vp"]), json.dumps(case["vn"]), json.dumps(b.spec)))
         if ok3[i]:
             ph = float(phi[i])
-            xi, yi = ri * math.cos(ph), ri * math.sin(ph)
+            xi, yi = xy_of(ri, ph)
+            if ph in (10.0, 11.0):
+                ctx.label("phi:x<0,y=+-0")
             rr = math.sqrt(xi * xi + yi * yi)
             a = math.atan2(yi, xi)
             ca, sa = math.cos(a), math.sin(a)
@@ -918,7 +1167,26 @@ def run_vector(case, ctx):
                 ok = float(np.max(np.abs(g3 - rot(outv)))) <= lim or bool(np.all(g2 == outv))
             ctx.check(ok, "map_vector3d", lambda: "map_vector3d(%r, %r, %r) = %r but Rz(%r rad) map_vector2d(%r, %r) = Rz %r = %r [eq=%s]"
                       % (xi, yi, zi, g3.tolist(), a, rr, zi, g2.tolist(), want.tolist(), json.dumps(b.spec)))
+    # re-use: vectors returned earlier are intact, a second pass with the same function object reproduces them bit for bit
+    for ri, zi, gobj, snap in kept:
+        with ctx.cut("map_vector2d re-use"):
+            again = _v(f2(ri, zi))
+        ctx.check(np.array_equal(_v(gobj), snap), "reuse", lambda: "a vector returned earlier for (%r, %r) changed from %r to %r while the function "
+                  "was evaluated elsewhere" % (ri, zi, snap.tolist(), _v(gobj).tolist()))
+        ctx.check(np.array_equal(again, snap), "reuse", lambda: "map_vector2d(..)(%r, %r) = %r on the second pass, %r on the first"
+                  % (ri, zi, again.tolist(), snap.tolist()))
+    ctx.label("reuse")
     decided = ~either
+    if case.get("mutate"):      # a caller that modifies a vector it was given (v.x += ..) must not change later answers
+        for i in np.nonzero(~inside & decided)[0][:3]:
+            ri, zi = float(r[i]), float(z[i])
+            with ctx.cut("map_vector2d evaluation"):
+                g = f2(ri, zi)
+                g.x, g.z = g.x + 1.0, g.z - 2.0
+                again = _v(f2(ri, zi))
+            ctx.check(np.array_equal(again, outv), "returned-vector-aliased", lambda: "map_vector2d(..)(%r, %r) returned %r (the outside value); after the "
+                      "caller modified that returned Vector3D in place the same call returns %r" % (ri, zi, outv.tolist(), again.tolist()))
+            ctx.label("mutate-returned")
     both = bool((inside & decided).any() and (~inside & decided).any())
     phis = bool((ok3 & (phi != 0.0)).any())
     if phis:
@@ -926,8 +1194,172 @@ def run_vector(case, ctx):
     ctx.nt(both and visible and phis)
 
 
+# ================================================================================================ api
+from cherab.tools.equilibrium.efit import EFITLCFSMask, MagneticField, PoloidalFieldVector, FluxSurfaceNormal, FluxCoordToCartesian  # noqa: E402
+
+
+def _twin_args(args, kind):
+    """(arguments in a non-float64 dtype / nested container, the canonical float64 arguments with the same values)."""
+    r, z, psi, pa, pl, ax, xp, sp, f, q, bvr, bvm, poly, lim, t = args
+    if kind in ("f32", "f32-all"):
+        psi_a = psi.astype(np.float32)
+        a = [r, z, psi_a, pa, pl, ax, xp, sp, f, q, bvr, bvm, poly, lim, t]
+        c = [r, z, psi_a.astype(np.float64), pa, pl, ax, xp, sp, f, q, bvr, bvm, poly, lim, t]
+        if kind == "f32-all":
+            for i in (0, 1, 8, 9, 12):
+                a[i] = np.asarray(a[i]).astype(np.float32)
+                c[i] = a[i].astype(np.float64)
+        return a, c
+    if kind == "int-profiles":       # integer dtype: 2-knot F and q profiles on psi_n = {0, 1}
+        fi = np.array([[0, 1], [int(round(f[1, 0])) or 2, int(round(f[1, -1])) or 3]], dtype=int)
+        qi = np.array([[0, 1], [1, 4]], dtype=np.int32)
+        a = [r, z, psi, pa, pl, ax, xp, sp, fi, qi, bvr, bvm, poly, lim, t]
+        c = [r, z, psi, pa, pl, ax, xp, sp, fi.astype(np.float64), qi.astype(np.float64), bvr, bvm, poly, lim, t]
+        return a, c
+    a = [tuple(r.tolist()), tuple(z.tolist()), tuple(map(tuple, psi.tolist())), pa, pl, ax, tuple(xp), tuple(sp), tuple(map(tuple, f.tolist())),
+         tuple(map(tuple, q.tolist())), bvr, bvm, tuple(map(tuple, poly.tolist())), tuple(map(tuple, lim.tolist())) if lim is not None else None, t]
+    return a, list(args)
+
+
+def run_api(case, ctx):
+    b = get_bundle(case["eq"], ctx)
+    eq = b.eq
+    _eq_labels(ctx, b)
+    r, z, phi, ok3 = make_points(case, b)
+    spec = b.spec
+    # ---- what the object reports about itself equals what it was given (read twice: same answer)
+    if b.synth is not None:
+        a = b.args
+        given = dict(psi_axis=a[3], psi_lcfs=a[4], axis=(a[5].x, a[5].y), xp=[(p.x, p.y) for p in a[6]], sp=[(p.x, p.y) for p in a[7]],
+                     time=a[14], lim=None if a[13] is None else np.ascontiguousarray(a[13].T), f=a[8], q=a[9])
+    else:
+        d, s_, c_ = b.json, spec["s"], spec["c"]
+        given = dict(psi_axis=s_ * d["psi_axis"] + c_, psi_lcfs=s_ * d["psi_lcfs"] + c_, axis=tuple(d["axis"]), xp=[tuple(p) for p in d["xp"]],
+                     sp=[tuple(p) for p in d["sp"]], time=d["time"], lim=np.ascontiguousarray(np.array(d["lim"], dtype=float).T),
+                     f=np.array(d["f"], dtype=float), q=np.array(d["q"], dtype=float))
+    for rep_ in range(2):
+        with ctx.cut("attribute access"):
+            got = dict(psi_axis=eq.psi_axis, psi_lcfs=eq.psi_lcfs, axis=(eq.magnetic_axis.x, eq.magnetic_axis.y),
+                       xp=[(p.x, p.y) for p in eq.x_points], sp=[(p.x, p.y) for p in eq.strike_points], time=eq.time,
+                       r_range=tuple(eq.r_range), z_range=tuple(eq.z_range), r=np.array(eq.r_data), z=np.array(eq.z_data),
+                       psi=np.array(eq.psi_data), poly=np.array(eq.lcfs_polygon),
+                       lim=None if eq.limiter_polygon is None else np.array(eq.limiter_polygon))
+        for k in ("psi_axis", "psi_lcfs", "axis", "xp", "sp", "time"):
+            ctx.check(got[k] == given[k], "attributes", lambda: "%s reads %r, constructed with %r (%s)" % (k, got[k], given[k], json.dumps(spec)))
+        ctx.check(got["r_range"] == (b.r.min(), b.r.max()) and got["z_range"] == (b.z.min(), b.z.max()), "attributes",
+                  lambda: "r_range/z_range %r %r for a grid %r..%r x %r..%r" % (got["r_range"], got["z_range"], b.r[0], b.r[-1], b.z[0], b.z[-1]))
+        for k, want in (("r", b.r), ("z", b.z), ("psi", b.psi), ("poly", b.poly)):
+            ctx.check(got[k].shape == want.shape and np.array_equal(got[k], want), "attributes",
+                      lambda: "%s_data / lcfs_polygon differs from the constructor argument (%s)" % (k, json.dumps(spec)))
+        ctx.check((got["lim"] is None) == (given["lim"] is None) and (got["lim"] is None or np.array_equal(got["lim"], given["lim"])), "attributes",
+                  lambda: "limiter_polygon reads %r (%s)" % (got["lim"], json.dumps(spec)))
+    ctx.label("entry:attributes", "entry:EFITEquilibrium")
+    # ---- psi, psi_normalised, inside_lcfs, inside_limiter
+    psin = _psin(ctx, b, r, z)
+    inside, inpoly, amb, known = classify(b, r, z, psin)
+    either = amb | known
+    dpsi = given["psi_lcfs"] - given["psi_axis"]
+    tol_n = 1e-10 * (float(np.max(np.abs(b.psi))) + abs(given["psi_axis"])) / abs(dpsi) + 1e-12
+    lim_seen = set()
+    for i in range(len(r)):
+        ri, zi = float(r[i]), float(z[i])
+        with ctx.cut("psi / inside_lcfs / inside_limiter"):
+            psi_v, m = eq.psi(ri, zi), eq.inside_lcfs(ri, zi)
+            ml = None if eq.inside_limiter is None else eq.inside_limiter(ri, zi)
+        want = max(0.0, (psi_v - given["psi_axis"]) / dpsi)
+        ctx.check(abs(psin[i] - want) <= tol_n, "psi-vs-psi_n", lambda: "psi_normalised(%r, %r) = %r but max(0, (psi - psi_axis)/(psi_lcfs - psi_axis)) = %r "
+                  "with psi = %r (%s)" % (ri, zi, float(psin[i]), want, psi_v, json.dumps(spec)))
+        ctx.check(m in (0.0, 1.0) and (either[i] or m == float(inside[i])), "inside_lcfs", lambda: "inside_lcfs(%r, %r) = %r; in polygon %s, psi_n = %r (%s)"
+                  % (ri, zi, m, bool(inpoly[i]), float(psin[i]), json.dumps(spec)))
+        ctx.check(ml is None or ml in (0.0, 1.0), "inside_limiter", lambda: "inside_limiter(%r, %r) = %r" % (ri, zi, ml))
+        lim_seen.add(ml)
+    ctx.label("entry:psi", "entry:inside_lcfs", "entry:inside_limiter:none" if None in lim_seen else "entry:inside_limiter")
+    # ---- F and q profiles reproduce their samples on the knots; psin_to_r answers inside the grid
+    for nm, fn, data in (("f_profile", eq.f_profile, given["f"]), ("q", eq.q, given["q"])):
+        data = np.asarray(data, dtype=float)
+        with ctx.cut(nm):
+            vals = np.array([fn(float(x)) for x in data[0]])
+        ctx.close(vals, data[1], nm, rtol=1e-12, info="(%s at its own knots, %s)" % (nm, json.dumps(spec)))
+    ctx.label("entry:f_profile", "entry:q")
+    if eq.psin_to_r is not None:
+        with ctx.cut("psin_to_r"):
+            v = eq.psin_to_r(0.5)
+        ctx.check(math.isfinite(v), "psin_to_r", lambda: "psin_to_r(0.5) = %r" % v)
+        ctx.label("entry:psin_to_r")
+    else:
+        ctx.label("entry:psin_to_r:none")
+    # ---- the package loaders, called again (explicit path): same object as the default call
+    if spec["kind"] != "synth":
+        with ctx.cut("loader"):
+            e2 = example_equilibrium() if spec["kind"] == "example" else \
+                load_equilibrium(file_path=os.path.join(os.path.dirname(_cge.__file__), "data", "generomak_equilibrium.json"))
+            v2 = [e2.psi_normalised(float(a), float(c)) for a, c in zip(r[:10], z[:10])]
+        if spec["s"] == 1.0 and spec["c"] == 0.0:
+            ctx.check(v2 == [float(x) for x in psin[:10]], "loader", lambda: "a second call of the loader gives a different psi_normalised")
+        ctx.label("entry:example_equilibrium" if spec["kind"] == "example" else "entry:load_equilibrium")
+    else:
+        # ---- other dtypes / nested containers give the same object as float64 arrays of the same values
+        ta, tc = _twin_args(b.args, case["twin"])
+        with ctx.cut("construct (twin)"):
+            e_a, e_c = EFITEquilibrium(*ta), EFITEquilibrium(*tc)
+        rr = np.clip(r[:24], max(e_c.r_range[0], b.r[0]), min(e_c.r_range[1], b.r[-1]))
+        zz = np.clip(z[:24], max(e_c.z_range[0], b.z[0]), min(e_c.z_range[1], b.z[-1]))
+        for ri, zi in zip(rr, zz):
+            ri, zi = float(ri), float(zi)
+            with ctx.cut("twin evaluation"):
+                va = (e_a.psi_normalised(ri, zi), e_a.inside_lcfs(ri, zi)) + tuple(_v(e_a.b_field(ri, zi)))
+                vc = (e_c.psi_normalised(ri, zi), e_c.inside_lcfs(ri, zi)) + tuple(_v(e_c.b_field(ri, zi)))
+            ctx.check(va == vc, "dtype-forms", lambda: "constructed from %s data: (psi_n, inside, B) = %r at (%r, %r); from float64 arrays of the same "
+                      "values: %r (%s)" % (case["twin"], va, ri, zi, vc, json.dumps(spec)))
+        ctx.label("twin:" + case["twin"])
+    # ---- the helper classes of efit.pyx built directly on Python callables
+    poly = [[0.0, 0.0], [2.0, 0.0], [2.0, 1.0], [0.0, 1.0]]
+    for pn in case["psin"]:
+        with ctx.cut("EFITLCFSMask"):
+            m_in = EFITLCFSMask(poly, lambda a_, b_: pn)(0.7, 0.3)
+            m_out = EFITLCFSMask(np.array(poly), lambda a_, b_: pn)(2.5, 0.3)
+        ctx.check(m_in == (1.0 if pn <= 1.0 else 0.0) and m_out == 0.0, "EFITLCFSMask", lambda: "mask = %r inside / %r outside the polygon for psi_n = %r" % (m_in, m_out, pn))
+        if pn == 1.0:
+            ctx.label("mask:psi_n==1")
+    profs = [build_profile(p_) for p_ in case["comp"]]
+    pscale = max(p_[3] for p_ in profs)
+    for k, fv in enumerate(case["fields"]):
+        fx, fy, fz = fv
+        field = lambda a_, b_: Vector3D(fx, fy, fz)   # noqa: E731
+        pn = float(case["psin"][k % len(case["psin"])])
+        pn = min(pn, 1.0)
+        bp = math.hypot(fx, fz)
+        with ctx.cut("helper classes"):
+            pv, nv = _v(PoloidalFieldVector(field)(1.5, 0.25)), _v(FluxSurfaceNormal(field)(1.5, 0.25))
+            cv = _v(FluxCoordToCartesian(field, lambda a_, b_: pn, profs[0][0], profs[1][0], profs[2][0])(1.5, 0.25))
+        comp = [p_[1](pn) for p_ in profs]
+        if bp == 0.0:
+            wp, wn, wc = np.zeros(3), np.zeros(3), np.array([0.0, comp[0], 0.0])
+            ctx.label("helper:zero-field")
+        else:
+            wp = np.array([fx / bp, 0.0, fz / bp])
+            wn = np.cross(wp, [0.0, 1.0, 0.0])
+            wc = comp[0] * np.array([0.0, 1.0, 0.0]) + comp[1] * wp + comp[2] * wn
+            if (fx == 0.0) != (fz == 0.0):
+                ctx.label("helper:one-zero")
+        ctx.check(float(np.max(np.abs(pv - wp))) <= ALG and float(np.max(np.abs(nv - wn))) <= ALG, "helper-basis",
+                  lambda: "field %r: PoloidalFieldVector %r (expected %r), FluxSurfaceNormal %r (expected %r)" % (fv, pv.tolist(), wp.tolist(), nv.tolist(), wn.tolist()))
+        ctx.check(float(np.max(np.abs(cv - wc))) <= ALG * pscale, "helper-velocity",
+                  lambda: "field %r, psi_n %r, components %r: FluxCoordToCartesian %r, expected %r" % (fv, pn, comp, cv.tolist(), wc.tolist()))
+    m0, m1, m2, m3, m4, m5 = case["mf"]
+    rq = 1.0 + abs(m5)
+    with ctx.cut("MagneticField"):
+        mf_in = _v(MagneticField(lambda a_, b_: 0.5, lambda a_, b_: m0, lambda a_, b_: m1, lambda x_: m2, m3, m4, lambda a_, b_: 1.0)(rq, 0.5))
+        mf_out = _v(MagneticField(lambda a_, b_: 1.5, lambda a_, b_: m0, lambda a_, b_: m1, lambda x_: m2, m3, m4, lambda a_, b_: 0.0)(rq, 0.5))
+    ctx.close([mf_in[0], mf_in[2], mf_out[0], mf_out[2]], [-m1 / rq, m0 / rq, -m1 / rq, m0 / rq], "MagneticField", rtol=1e-12, atol=1e-300,
+              info="B_r = -dpsi_dz/r, B_z = dpsi_dr/r with dpsi_dr=%r dpsi_dz=%r r=%r" % (m0, m1, rq))
+    ctx.label("entry:EFITLCFSMask", "entry:MagneticField", "entry:PoloidalFieldVector", "entry:FluxSurfaceNormal", "entry:FluxCoordToCartesian")
+    ctx.nt(bool((inside & ~either).any() and (~inside & ~either).any()))
+
+
 SUBCHECKS = {
     "scalar": Given(scalar_strategy, run_scalar, quick=480, thorough=16000),
     "basis": Given(basis_strategy, run_basis, quick=240, thorough=8000),
     "vector": Given(vector_strategy, run_vector, quick=240, thorough=8000),
+    "api": Given(api_strategy, run_api, quick=160, thorough=4000),
 }
